@@ -22,4 +22,5 @@ THOROUGH = QUICK + [
 def run(ctx):
     n = 400000 if ctx.thorough else 40000
     rnd = [("rnd-plain", n, ["req=0:3115b50900", "buslost=1"]), ("rnd-enh", n, ["enhanced=1", "req=0:3115b50900", "buslost=1"])]
-    pc.run_configs(ctx, "C01", "r", THOROUGH if ctx.thorough else QUICK, random_runs=rnd)
+    pc.run_configs(ctx, "C01", "r", THOROUGH if ctx.thorough else QUICK, random_runs=rnd,
+                   spec_fidelity=[("S:plain-nn1", ["submit=0", "nn=1", "snn=1"], 8)], spec_mc=True)
